@@ -105,7 +105,19 @@ func (p *Prog) isRecvExpr(fn *Func, e ast.Expr) bool {
 		return false
 	}
 	r := p.recvObj(fn)
-	return r != nil && p.ObjOf(id) == r
+	if r == nil {
+		return false
+	}
+	if p.ObjOf(id) == r {
+		return true
+	}
+	// the receiver of an extracted-block helper of fn that is called on fn's receiver
+	if owner := p.EnclosingFunc(id.Pos()); owner != nil && owner != fn {
+		if hs := p.HelperSite(owner); hs != nil && p.recvObj(owner) != nil && p.ObjOf(id) == p.recvObj(owner) && Recv(hs.Call) != nil {
+			return p.isRecvExpr(fn, Recv(hs.Call))
+		}
+	}
+	return false
 }
 
 // fieldSel: e is a selector of the named field ("pkg.Type.field"); returns the base expression.
